@@ -116,7 +116,11 @@ def run(R, env):
                     if url is not None and url[0] == "item" and url[1].endswith("TYPE_URL") and const_str(url) is None:
                         # `M::TYPE_URL` of a generic wrapper: M is the type of the message whose bytes are
                         # the value (checked below), so the constant is that type's registered URL
-                        regs = [i_ for i_ in prog.impls if (i_.get("trait") or "").endswith("TypeUrl") and i_.get("self_adt") == adt]
+                        # (the registry trait of the bindings, or a local trait carrying the same associated const)
+                        regs = [i_ for i_ in prog.impls if i_.get("self_adt") == adt and "str" in ((i_.get("assoc_consts") or {}).get("TYPE_URL") or {})]
+                        item_trait = url[1].rsplit("::", 2)[0] if url[1].count("::") >= 2 else ""
+                        if len(regs) > 1:
+                            regs = [i_ for i_ in regs if (i_.get("trait") or "").split("<")[0].endswith(url[1].rsplit("::", 1)[0].split("::")[-1])] or regs
                         if len(regs) == 1 and "str" in (regs[0]["assoc_consts"].get("TYPE_URL") or {}):
                             url = ("const", "str", regs[0]["assoc_consts"]["TYPE_URL"]["str"])
                     R.ob("C19.R2", "miniwasm:%s:type_url" % kind, url is not None and fqn is not None and const_str(url) == "/" + fqn, "type_url %s, expected \"/%s\" (the protobuf name of %s)" % (fmt(url or ("none",)), fqn, adt.split("::")[-1]), loc=sbi, fn=fk)
